@@ -45,7 +45,7 @@ def okValue (ds : List Char) (v : Str) : Bool :=
       else decide (scan ds v (none, []) = some (none, [])))
   && decide (split ['='] (argFormat ds v) = some [argFormat ds v])
 
-/-! ### round 3: line-level normal form (hypotheses of `C06Line.line_roundtrip`) -/
+/-! ### round 3: line-level normal form (hypotheses of `C06Line.line_roundtrip_partial`) -/
 
 /-- a rule does not react to the given fields -/
 def noMatch (fields : List Str) (r : Rule) : Bool :=
